@@ -20,6 +20,7 @@ import (
 	"strings"
 	"sync"
 	"testing"
+	"testing/synctest"
 	"time"
 
 	"github.com/ethereum/go-ethereum/rpc"
@@ -283,8 +284,17 @@ func (rc *rawConn) roundTrip(body []byte, timeout time.Duration) (*jsonrpc2.Mess
 	}
 	ch := make(chan res, 1)
 	go func() {
-		m, err := rc.end.ReadMessage()
-		ch <- res{m, err}
+		for {
+			m, err := rc.end.ReadMessage()
+			if err == nil && m.Request != nil {
+				// a hostile request may have registered this very connection as a host: the pool then sends IT
+				// reverse requests (vipnode_whitelist); answer them like an agent would and keep waiting
+				rc.end.writeRaw([]byte(fmt.Sprintf(`{"jsonrpc":"2.0","id":%s,"result":null}`, string(m.ID))))
+				continue
+			}
+			ch <- res{m, err}
+			return
+		}
 	}()
 	select {
 	case r := <-ch:
@@ -319,6 +329,7 @@ func c15StructuredCase(rt *rapid.T, rec *vt.Rec) {
 	}
 	rc := dialRaw(sh, s.pool.CloseRemote)
 	defer rc.close()
+	_ = synctest.Wait
 	nMsgs := rapid.IntRange(1, 6).Draw(rt, "nMsgs")
 	var sample []string
 	reached := 0
@@ -382,6 +393,16 @@ func c15StructuredCase(rt *rapid.T, rec *vt.Rec) {
 	c15Tick("peer request of the honest client after: " + strings.Join(sample, " ; "))
 	if _, err := s.peer(1, 1, ""); err != nil && classifyErr(err).Kind != "nohosts" {
 		rt.Fatalf("after the hostile requests the honest client's peer request fails: %v", err)
+	}
+	// nothing may be left blocked once every connection is closed (a request goroutine stuck for good is a leak
+	// that a stream of such requests turns into a wedge)
+	c15Tick("closing")
+	rc.close()
+	s.close()
+	time.Sleep(time.Minute)
+	synctest.Wait()
+	if left := bubbleLeftovers(); len(left) > 0 {
+		rt.Fatalf("goroutines are still blocked after all connections were closed:\n%s\nrequests: %v", strings.Join(left, "\n\n"), sample)
 	}
 	rec.Case(fmt.Sprintf("structured|%v", sample), reached > 0, []string{"structured"}, func() interface{} {
 		return map[string]interface{}{"target": "structured requests to the production registration", "requests": sample}
